@@ -644,10 +644,12 @@ func (s *Server) Invoke(responseWriter http.ResponseWriter, invoke *interop.Invo
 	defer resetCancel()
 
 	timeoutChan := make(chan error)
+	timedOut := make(chan struct{})
 	go func() {
 		select {
 		case <-time.After(s.GetInvokeTimeout()):
 			log.Debug("Invoke() timeout")
+			close(timedOut)
 			timeoutChan <- ErrInvokeTimeout
 		case <-resetCtx.Done():
 			log.Debugf("execute finished, autoreset cancelled")
@@ -698,6 +700,17 @@ func (s *Server) Invoke(responseWriter http.ResponseWriter, invoke *interop.Invo
 					// Because following fast invoke will start new (supressed) Init phase without reset call
 					s.Shutdown(&interop.Shutdown{DeadlineNs: metering.Monotime() + int64(resetDefaultTimeoutMs*1000*1000)})
 				}
+			}
+
+			select {
+			case <-timedOut:
+				// The invocation timed out while init was still running or being cleaned up:
+				// the caller gets the timeout outcome and the environment is being reset.
+				// Dispatching the event now would run it against the next generation and
+				// hold up the invocation that follows.
+				log.Debug("Invoke() timed out before dispatch, not sending the invoke")
+				return
+			default:
 			}
 
 			if err := s.FastInvoke(responseWriter, invoke, false); err != nil {
